@@ -15,15 +15,18 @@ SPEC = {
              "samples per setter), each also with a 5- and a 6-byte payload under its innermost layer. X: 46 checksum-carrying stack shapes (eth/ip/tcp, eth/ip/udp, ip/icmp, "
              "eth/ipv6/{tcp,udp,icmpv6}, IP options, TCP options, IPv6 extension headers, 802.1Q, QinQ, 802.1Q without padding, dot3/snap and dot3/llc/snap, SLL, loopback, PPPoE "
              "session + PPP, MPLS x1/x2, ICMP / ICMPv6 errors with RFC 4884 extension structure and/or length octet, RadioTap with and without FCS over 802.11 data / QoS data / "
-             "beacon, ip-in-ip, 6in4, 4in6, 6in6, AH, VXLAN) x payload sizes {0..9,17..19,25..27,45..47,100,127..133 (thorough: 255,256,1471..1473,9000)} + the sizes around the "
-             "65535-byte limit; ladders: every IPv6 extension header data size 0..24 x {hop-by-hop, destination, routing} x 4 contexts, fragment headers, TCP and IP option data "
-             "sizes 0..38, AH ICV sizes, ICMP{3,11,12}/ICMPv6{3} x original datagram sizes around the 4/8-byte rounding and the 128-byte minimum x {extension, length octet}, every "
-             "tag-writing parent (EthernetII, Dot1Q, SNAP, SLL, IP, IPv6, IPv6+ext, AH, Loopback, LLC, MPLS) preset with a wrong tag in front of every child class libtins has a tag "
-             "for, Ethernet payload sizes 0..64 x {raw, ip/udp, dot1q, dot1q without padding, QinQ}, EAPOL / Dot3 / PPPoE / RadioTap bodies of 8 sizes. S: for every shape one 16-bit "
-             "word swept through ALL 65536 values in stage 'fast' - a payload word with an even payload length, a payload word straddling the zero-padded last byte of an odd "
-             "payload length, the IPv4 identification (header checksum), a word inside the first ICMP extension object - 250 sweeps; stage 'san' repeats the sweeps on every 251st "
-             "value + 13 boundary values + the values computed (with the reference sum) to drive each checksum field to 0x0000 / 0xffff and their neighbours. P: every wire seed "
-             "of the corpus (layer suffixes of all grammar packets + hand-written wire seeds) parsed by its entry point and re-serialized. "
+             "beacon, ip-in-ip, 6in4, 4in6, 6in6, AH, VXLAN, ICMP timestamp) x EVERY payload size 0..140 (thorough 0..1600) + {255,256,1471..1473,9000,32767,32768} + five sizes "
+             "around the 65535-byte limit; ladders: every IPv6 extension header data size 0..24 x {hop-by-hop, destination, routing} x 4 contexts, fragment headers, TCP and IP "
+             "option data sizes 0..38, AH ICV sizes, ICMP{3,11,12}/ICMPv6{3} x 28 original datagram sizes around the 4/8-byte rounding and the 128-byte minimum x {extension} x "
+             "{length octet}, every tag-writing parent (EthernetII, Dot1Q, SNAP, SLL, IP, IPv6, IPv6+ext, AH, Loopback, LLC, MPLS) preset with a wrong tag in front of every child "
+             "class libtins has a tag for, Ethernet payload sizes 0..64 x {raw, ip/udp, dot1q, dot1q without padding, QinQ}, EAPOL / Dot3 / PPPoE / RadioTap bodies of 8 sizes. "
+             "S: for every shape one 16-bit word swept through ALL 65536 values - a payload word with an even payload length, a payload word straddling the zero-padded last byte "
+             "of an odd payload length, the IPv4 identification (header checksum), a word inside the first ICMP extension object; thorough adds both payload sweeps at payload "
+             "length 1400/1401 - 250 sweeps quick, 434 thorough, all values in stage 'fast' (both tiers) and in stage 'san' (thorough); quick stage 'san' takes every 251st value "
+             "+ 13 boundary values + the values computed with the reference sum to drive each checksum field to 0x0000 / 0xffff and their neighbours. "
+             "V: fields set by the harness swept through their domain with libpcap programs compiled per value: TCP / UDP ports 0..65535 on four stacks, VLAN id 0..4095 outer and "
+             "QinQ inner, PPPoE session id, ICMP type, TTL, address octet 0..255, MPLS label stride 251 (quick: stride 17 on 16-bit domains). "
+             "P: every wire seed of the corpus (layer suffixes of all grammar packets + hand-written wire seeds) parsed by its entry point and re-serialized. "
              "Oracle 1, reference dissector: reads the wire from the link type; per layer compared with the object that was serialized: header-length fields (IPv4 ihl, TCP data "
              "offset, IPv6 extension chain with every Hdr Ext Len, RadioTap it_len, AH length) = real header end; length fields (IPv4 tot_len, IPv6 payload_length, UDP length, 802.3 "
              "length, PPPoE payload_length, EAPOL length, RFC 4884 length octet, ND option lengths, MLDv2 record count) = bytes governed; the protocol named by every next-protocol tag "
